@@ -61,7 +61,7 @@ def listMem (glob : String → String → Bool) (shuf : List String → List Str
   match filterE (keepMem glob cat f) saved with
   | .error e => .error e
   | .ok rs =>
-    let ids := takeOpt lim (rs.map (·.id))
+    let ids := takeOpt (PlaybackModel.Source.memLimitTest.limit lim) (rs.map (·.id))      -- the test as it stands in the source
     .ok (if random then shuf ids else ids)
 
 /-! ### file-based cassette: the directory is a list of (file name, decoded content) in `os.listdir` order -/
@@ -112,7 +112,7 @@ def listFile (glob : String → String → Bool) (dir : List (String × Rec)) (c
     (lim : Option Nat) : Except LErr (List String) :=
   match filterMapE (keepFile glob dir cat f) dir with
   | .error e => .error e
-  | .ok ids => .ok (takeOpt lim ids)
+  | .ok ids => .ok (takeOpt (PlaybackModel.Source.fileLimitTest.limit lim) ids)         -- the test as it stands in the source
 
 /-- the directory after saving `saved` (distinct file names), before `os.listdir` permutes it -/
 def dirOf (saved : List Rec) : List (String × Rec) := saved.map (fun r => (fileName r.id, r))
